@@ -87,7 +87,7 @@ def definition_fields(a_entries, b_entries, d_entries):
     for eid, (name, unit, scale, ref, width) in b_entries:
         s = '%06d' % eid
         strings += [s[0], s[1:3], s[3:6], name[:32], name[32:64], unit,
-                    '+' if scale >= 0 else '-', '%d' % abs(scale), '+' if ref >= 0 else '-', '%d' % abs(ref), '%d' % width]
+                    '+' if scale >= 0 else '-', '%d' % abs(scale), '+' if ref >= 0 else '-', '%d' % abs(ref), str(width)]
     counts.append(len(d_entries))
     for sid, (name, members) in d_entries:
         s = '%06d' % sid
@@ -350,6 +350,26 @@ def make_stream(ctx, k):
                 break
     if not any(e is not None for e in expected):
         return None
+    # a definition message that is REFUSED part-way (an entry with a non-numeric data width after a redefinition of an
+    # existing element), read from a stream of its own; what follows is decoded by the last ACCEPTED definitions
+    if elems and rng.random() < 0.25:
+        try:
+            old = rng.choice(elems)
+            _, changed = new_element(rng, set())
+            fresh, ent = new_element(rng, set(B))
+            bad_def = build_definition(rng, B, D, mtv, [(old, changed), (fresh, ent[:4] + ('abc',))], [], 4, k * 10 + 9)
+            follow = R.build_message([old, 1001, old], B, D, R.Policy(rng), 2, False, 4,
+                                     dict(master_table_version=mtv, data_category=0, update_sequence_number=len(parts) % 256),
+                                     inline_sequences=True)
+            if not any(me and me[0] == 'n' and me[2] > 0 and me[1] > 48 for s_ in follow.subsets for me in s_.meta):
+                follow.local = None
+                follow.uses_elems, follow.uses_seqs, follow.uses_rep_only, follow.nested_rep_only = 2, 0, 0, 0
+                follow.uses_std, follow.negatives = 1, 0
+                stats['extra_segments'] = [('!', bad_def.bytes), ('', follow.bytes)]
+                expected.append(follow)
+                stats['refused_definitions'] = 1
+        except (R.Unsupported, KeyError, RuntimeError):
+            pass
     sep = rng.choice([b'', b'\r\r\n', b'xx'])
     return sep.join(parts), expected, stats, dict(mtv=mtv, elements={str(e): list(B[e]) for e in elems},
                                                  sequences={str(s): D[s] for s in seqs})
@@ -379,7 +399,10 @@ def run(ctx):
             hf = os.path.join(scratch, 's%d.hex' % q)
             with open(hf, 'w') as f:
                 f.write(stream.hex())
-            spec = dict(stream_hex=stream.hex(), model=model, n_messages=len(expected), definitions=stats['defs'])
+                for flag, seg in stats.get('extra_segments', []):
+                    f.write('\n' + flag + seg.hex())
+            spec = dict(stream_hex=stream.hex(), model=model, n_messages=len(expected), definitions=stats['defs'],
+                        extra_segments=[(fl, sg.hex()) for fl, sg in stats.get('extra_segments', [])])
             try:
                 variant = ['default', 'default', 'filter', 'continue', 'unwired', 'filter'][q % 6]
                 ctx.add('scan_variants', variant)
@@ -396,6 +419,12 @@ def run(ctx):
             if stats['defs'] > 1:
                 ctx.count('multi_definition_streams')
             ctx.count('redefinitions', stats['redefs'])
+            ctx.count('refused_definition_segments', stats.get('refused_definitions', 0))
+            if stats.get('refused_definitions') and not out.get('segment_errors'):
+                # the part-way broken definition message was not refused: nothing to say about what follows it
+                ctx.count('refused_definition_accepted_not_judged')
+                expected = expected[:-1]
+                out['messages'] = out['messages'][:len(expected)]
             ctx.count('redefinition_only_messages', stats.get('redef_only', 0))
             ctx.count('sequence_redefinitions', stats.get('seq_redefs', 0))
             ctx.count('reused_descriptor_lists', stats.get('reused_descriptor_lists', 0))
@@ -457,6 +486,8 @@ def replay(ctx, case):
     hf = os.path.join(scratch, 's.hex')
     with open(hf, 'w') as f:
         f.write(spec['stream_hex'])
+        for flag, seg in spec.get('extra_segments', []):
+            f.write('\n' + flag + seg)
     p = subprocess.run([sys.executable, '-m', 'mon.c20_runner', hf, spec.get('scan_variant', 'default')], capture_output=True, timeout=180,
                        cwd=os.environ.get('VERIF_DIR', '/verif'))
     out = json.loads(p.stdout.decode())
